@@ -130,6 +130,11 @@ def _changes_directory(node) -> bool:
         i = 0
         while i < len(words) and _is_assignment_word(words[i]):
             i += 1
+        # `command cd` and `builtin cd` run the builtin in the current shell
+        while i < len(words) and words[i] in ("command", "builtin"):
+            i += 1
+            while i < len(words) and words[i].startswith("-"):
+                i += 1
         return i < len(words) and words[i] in ("cd", "pushd", "popd")
     if kind in ("subshell", "cmdsub", "procsub", "word", "redirect", "heredoc"):
         return False
